@@ -59,6 +59,9 @@ def gen_sequence(rng, chained, ring=False):
             seq.append(f"failput {r} {sig_of(rng, r)} {sigs[head] if chained else '-'}")
             if ring:      # memdb ignores the context, the write succeeds
                 head, sigs[r] = r, sig_of(rng, r)
+            elif rng.chance(1, 2):   # the round after a failed write must still be refused
+                seq.append(f"put {r + 1} {sig_of(rng, r + 1)} {rng.choice([sigs[head], sig_of(rng, r)]) if chained else '-'}")
+                seq.append("scan")
         elif k < 90:
             seq.append("restart")
         elif k < 94:
@@ -124,6 +127,7 @@ def explore(ctx, res):
     tier = "thorough" if ctx["deep"] else ctx["tier"]
     n = 120 if tier == "quick" else 3000
     total, validated, nontriv, dist, samples = 0, 0, set(), {}, []
+    diverged = None
     h = os.path.join(core.BUILD, "verifh")
     for backend in BACKENDS:
         seqs = [gen_sequence(rng.fork(f"{backend}{i}"), i % 2 == 0, backend.startswith("mem")) for i in range(n)]
@@ -149,16 +153,20 @@ def explore(ctx, res):
             if model is not None:
                 mo = model[i:i + len(s)]
                 if mo != outs:
-                    j = core.first_diff(outs, mo)
-                    res.add_violation({"engine": "chain", "backend": backend, "kind": "model-impl-diverge", "ops": s[:j + 1],
-                                       "observed": outs[j:j + 1], "expected": mo[j:j + 1],
-                                       "note": "correspondence 'chain' no longer checks; the gap-free/append-only oracle accepts the implementation's answers"}, found=False)
-                    break
-                validated += 1
+                    # keep looking: another sequence may show the property itself failing on the implementation
+                    if diverged is None:
+                        j = core.first_diff(outs, mo)
+                        diverged = {"engine": "chain", "backend": backend, "kind": "model-impl-diverge", "ops": s[:j + 1],
+                                    "observed": outs[j:j + 1], "expected": mo[j:j + 1],
+                                    "note": "correspondence 'chain' no longer checks; the gap-free/append-only oracle accepts the implementation's answers on every sequence explored"}
+                else:
+                    validated += 1
             i += len(s)
         samples.append({"backend": backend, "ops": seqs[0][:10], "impl": impl[:10]})
         if res.violations:
             break
+    if diverged is not None and not res.violations:
+        res.add_violation(diverged, found=False)
     res.cov.update(evaluations=total, distinct_nontrivial=len(nontriv), traces_validated_against_impl=validated, samples=samples)
     res.cov["rule"] = ("per back-end (trimmed bolt with previous-required iff chained, untrimmed bolt, memdb) × chained/unchained: random op sequences around the head "
                        "(head+1 honest, head re-put equal/different, wrong previous signature, gaps, past rounds, restarts, scans); non-trivial = distinct sequence with more than 2 successful appends")
